@@ -36,7 +36,9 @@ RULE = ("full product of entry x model_version x use_underscore x subset in {emp
         "a case is non-trivial when at least one given old name is renamed by the table; distinct = distinct "
         "(entry, version, scheme, subset, attribute set) tuples")
 ASSUMPTIONS = [
-    "the conversion tables' {new: old} dictionaries are the specification of the mapping (the code that applies them is under test)",
+    "the conversion tables' {new: old} dictionaries are the specification of the mapping (the code that applies them is under test); "
+    "rows that the SOURCE of conversion_table.py spells out individually (read with ast) belong to the table even when the "
+    "expression assembling the dictionary loses or overrides them",
     "the saved-set model name is element [0] of a table entry (the optional third element is the name of the old plug-in module, "
     "not of a saved set, and is not explored)",
     "the forms 'name:k' of a table key denote variants of the model 'name'",
@@ -91,6 +93,51 @@ FUNC_INTER = ["Erf(|nu|*z)", "RPower(z^|nu|)", "LPower(z^|nu|)", "RExp(-|nu|*z)"
 # ------------------------------------------------------------------------------------------------
 # independent reading of the tables
 
+@functools.lru_cache(maxsize=None)
+def explicit_rows():
+    """
+    {(version, table key): [(new, old), ...]} - the rows that the SOURCE of conversion_table.py names one by one
+    (string: string entries of dict displays and name="old" keyword arguments inside an entry), read with ast and
+    not from the evaluated dictionaries: a row that the author spells out is part of the table even if the
+    expression that assembles the dictionary loses or overrides it.
+    """
+    import ast
+    from sasmodels import conversion_table
+    with open(conversion_table.__file__.replace(".pyc", ".py")) as fh:
+        tree = ast.parse(fh.read())
+    table = None
+    for node in tree.body:
+        if isinstance(node, ast.Assign) and any(getattr(t, "id", None) == "CONVERSION_TABLE" for t in node.targets):
+            table = node.value
+    if not isinstance(table, ast.Dict):
+        raise HarnessError("conversion_table.py: CONVERSION_TABLE is no longer a dict display")
+    out = {}
+    for vnode, models in zip(table.keys, table.values):
+        try:
+            version = tuple(ast.literal_eval(vnode))
+        except Exception:  # noqa
+            raise HarnessError("conversion_table.py: version key is not a literal")
+        if not isinstance(models, ast.Dict):
+            raise HarnessError("conversion_table.py: the %r table is no longer a dict display" % (version,))
+        for knode, entry in zip(models.keys, models.values):
+            if not (isinstance(knode, ast.Constant) and isinstance(knode.value, str) and isinstance(entry, (ast.List, ast.Tuple))
+                    and len(entry.elts) >= 2):
+                raise HarnessError("conversion_table.py: unexpected entry shape in the %r table" % (version,))
+            rows = []
+            for sub in ast.walk(entry.elts[1]):
+                if isinstance(sub, ast.Dict):
+                    for k, v in zip(sub.keys, sub.values):
+                        if (isinstance(k, ast.Constant) and isinstance(k.value, str) and isinstance(v, ast.Constant)
+                                and (v.value is None or isinstance(v.value, str))):
+                            rows.append((k.value, v.value))
+                elif isinstance(sub, ast.Call):
+                    for kw in sub.keywords:
+                        if kw.arg is not None and isinstance(kw.value, ast.Constant) and isinstance(kw.value.value, str):
+                            rows.append((kw.arg, kw.value.value))
+            out[(version, knode.value)] = rows
+    return out
+
+
 class Item(object):
     __slots__ = ("old", "final", "sld", "dispersible", "touched", "kind", "exists", "renamed")
 
@@ -124,6 +171,19 @@ class Entry(object):
                         self.vector_olds.add(old + str(k))
             else:
                 pairs.append((old, new))
+        # rows spelt out in the source of the table that the evaluated dictionary does not contain (lost / overridden)
+        self.explicit_lost = []
+        have = set(pairs)
+        for new, old in explicit_rows().get((self.version, key), []):
+            if old is None:
+                continue
+            expanded = ([(old + str(k), new + str(k)) for k in range(1, self.vectors[new] + 1)]
+                        if new in self.vectors else [(old, new)])
+            for pair in expanded:
+                if pair not in have and pair[0] not in [o for o, _ in pairs]:
+                    pairs.append(pair)
+                    have.add(pair)
+                    self.explicit_lost.append(pair)
         # chain through the tables of later releases (today: 3.1.2 BroadPeakModel -> broad_peak -> 5.0.4 names)
         for later in sorted(v for v in CONVERSION_TABLE if v > self.version):
             for new2, ent2 in CONVERSION_TABLE[later].items():
@@ -252,6 +312,12 @@ def build_set(ent, olds, aset, vals):
 
 def setup(ctx):
     from sasmodels.conversion_table import CONVERSION_TABLE
+    rows = explicit_rows()
+    nrows = sum(len(v) for v in rows.values())
+    if set(rows) != set((v, k) for v in CONVERSION_TABLE for k in CONVERSION_TABLE[v]) or nrows < 300:
+        raise HarnessError("the source of conversion_table.py could not be read row by row (%d entries, %d rows)"
+                           % (len(rows), nrows))
+    ctx.notes["explicit_rows"] = nrows
     if (3, 1, 2) not in CONVERSION_TABLE or (5, 0, 4) not in CONVERSION_TABLE:
         raise HarnessError("conversion tables changed: versions %r" % (sorted(CONVERSION_TABLE),))
 
@@ -370,6 +436,8 @@ def _one(r, convert, ent, pars, olds, mv, us, mode, label, extra=()):
         branches.append("control")
     if ent.hand:
         branches.append("hand-converted")
+    if any((it.old, it.final) in ent.explicit_lost for it in its):
+        branches.append("explicit-row-missing-from-evaluated-table")
     if len(ent.tables) > 1:
         branches.append("chained-tables")
     if any(k.endswith(PD_ATTRS) for k in pars):
@@ -538,6 +606,7 @@ def _judge(ent, call, given, olds, us, name, result, bad):
 
 
 def finish(ctx, report):
+    report.coverage["explicit_source_rows_read"] = int(ctx.notes.get("explicit_rows", 0))
     report.require("renamed", 1000, "sets with a renamed parameter")
     report.require("sld-in-3x-set", 500, "SLD values in 3.x sets")
     report.require("vector-expanded", 200, "expanded vector parameters")
